@@ -268,6 +268,21 @@ fn apply_impl<M: BinaryMatrix>(m: &mut M, md: &Model, op: &Op, dense_impl: bool)
             if cols != cols2 {
                 return Out::Cols(vec![usize::MAX - 1]);
             }
+            // a snapshot (clone) taken after the iterator has been advanced k steps continues exactly like
+            // the original: both yield the remainder of the first pass (k a fixed function of the query)
+            if !it.is_empty() {
+                let k = (row * 7 + a * 3 + b) % (it.len() + 1);
+                let mut orig = m.get_row_iter(row, a, b);
+                for _ in 0..k {
+                    orig.next();
+                }
+                let snap = orig.clone();
+                let rest_snap: Vec<(usize, Octet)> = snap.collect();
+                let rest_orig: Vec<(usize, Octet)> = orig.collect();
+                if rest_snap != it[k..] || rest_orig != it[k..] {
+                    return Out::Cols(vec![usize::MAX - 2]);
+                }
+            }
             Out::Cols(cols)
         }
         Op::OnesInCol { col, a, b } => {
